@@ -166,6 +166,10 @@ class P2WSHSortedMulti:
 
         if not key_records:
             raise ValueError("No key_records supplied")
+        if quorum_m > len(key_records):
+            raise ValueError(
+                f"Malformed threshold {quorum_m}-of-{len(key_records)} (m must be less than n)"
+            )
 
         key_records_to_save, network = [], None
         for key_record in key_records:
@@ -175,15 +179,20 @@ class P2WSHSortedMulti:
                 raise ValueError(
                     f"Invalid BIP32 path `{path}` in key record: {key_record}"
                 )
+            # is_valid_bip32_path is forgiving (" m/48h", "M/48h"); the descriptor text keeps
+            # everything after the first character, so make that first character the "m"
+            path = "m" + path.strip()[1:]
 
             xfp_hex = key_record.get("xfp")
             if not is_valid_xfp_hex(xfp_hex):
                 raise ValueError(
                     f"Invalid hex fingerprint `{xfp_hex}` in key record: {key_record}"
                 )
+            # descriptors spell the fingerprint in lower case (and parse only reads lower case)
+            xfp_hex = xfp_hex.lower()
 
             account_index = key_record.get("account_index")
-            if type(account_index) is not int:
+            if type(account_index) is not int or not 0 <= account_index < 2**31:
                 raise ValueError(
                     f"Invalid account index `{account_index}` in key record: {key_record}"
                 )
